@@ -162,6 +162,9 @@ def validate(rep, pid, scen, obs, label, info=1, refs=None, fields=None, kindfn=
                 hints = sorted(x for x in diff if x.startswith('h:'))
                 rec = chunks[i][p[1] - 1]
                 kind = kindfn(rec, rel, hints) if kindfn else None
+                if kind == '':
+                    nm -= 1
+                    continue           # another property's known deviation, not judged here
                 if kind is None:
                     kind = 'parser:' + '+'.join(sorted(rel)) + ('|' + '+'.join(hints) if hints else '')
                 rep.violation(kind, dict(source=label, diff=sorted(diff), chunks=[bytes(c).decode('latin1') for c in rec['chunks']],
